@@ -10,7 +10,7 @@ Inductive value :=
 | VWstr (cps : list Z)                       (* wchar / wchar[] : code points *)
 | VVoid
 | VList (vs : list value)                    (* arrays *)
-| VStruct (fs : list (string * value))       (* structures: ordered fields *)
+| VStruct (fs : list (string * value)) (sizes : list (string * Z))   (* structures: ordered fields; recorded sizes *)
 | VUnion (buf : list Z) (fs : list (string * value)).   (* unions: the byte buffer and the member views *)
 
 Fixpoint value_eqb (a b : value) {struct a} : bool :=
@@ -27,7 +27,8 @@ Fixpoint value_eqb (a b : value) {struct a} : bool :=
        | u :: r1, v :: r2 => value_eqb u v && go r1 r2
        | _, _ => false
        end) x y
-  | VStruct x, VStruct y =>
+  | VStruct x sx, VStruct y sy =>
+    list_eqb (fun a b => String.eqb (fst a) (fst b) && (snd a =? snd b)) sx sy &&
     (fix go (l1 l2 : list (string * value)) : bool :=
        match l1, l2 with
        | [], [] => true
